@@ -28,6 +28,12 @@ def run(res):
     # (termination requests inside tasks are part of the generated scripts)
     before = len(res.alarms)
     worker.correspond(res, 120 if res.tier == 'quick' else 4000)
+    # recorded findings of C03 (the worker protocol's own property) are reported by ./check C03,
+    # not once more under this property; everything else the worker run raises counts here
+    c03_known = {k['signature'] for k in core.load_known() if k.get('status') == 'known' and k.get('property') == 'C03'}
+    kept = [a for a in res.alarms[before:] if a['signature'] not in c03_known]
+    del res.alarms[before:]
+    res.alarms.extend(kept)
     for a in res.alarms[before:]:
         a['signature'] = a['signature'].replace('C03:', 'C08:worker-')
     res.assumptions += pc_assumptions()
